@@ -103,6 +103,10 @@ def boot(max_limit=6000, need_kv=True):
     # clocks and token sources
     for mod in (auth, validators, db, web):
         mod.time = CLOCK
+    # aionostr's Event() stamps created_at with time.time() when none is given (service events): owned by the harness clock too
+    import aionostr.event as _aev
+
+    _aev.time = types.SimpleNamespace(time=CLOCK)
     secrets_ns = types.SimpleNamespace(token_hex=TOKENS.token_hex)
     util.secrets = secrets_ns
     auth.secrets = secrets_ns
